@@ -2,6 +2,7 @@
 from . import poly_common as pc
 from . import c01_status
 from . import c01_conv
+from . import c01_full
 LEVEL = "proof"
 
 
@@ -15,6 +16,7 @@ def run(ctx):
                 maxdim=3 if quick else 4)
     broken += c01_status.run(ctx)          # stage 2: the lazy status protocol (proof + status correspondence)
     broken += c01_conv.run(ctx)            # stage 3: the double-description engine (conversion / simplify / minimize)
+    broken += c01_full.run(ctx)            # integration stage: the whole Polyhedron object, histories through the full model
     for b in broken:
         # a proof obligation broke but the correspondence above found no failing input
         ctx.violation("proof obligation broken: " + b, {"obligation": b}, found_input=False)
